@@ -7,5 +7,5 @@ Extraction Language OCaml.
 Set Extraction KeepSingleton.
 Extraction "model.ml" extraction_prelude
   tsc_duration fine_from_duration measure_precision prec_consumed prec_init
-  tsc_sb dur_sb prec_sb
+  tsc_sb dur_sb prec_sb os_duration_since osd_sb
   prec_queries pcache_empty precq_sb.
